@@ -224,6 +224,11 @@ where
         }
     }
 
+    // If no limbs were discarded, initialize carry to zero
+    if steps == 0 {
+        ZNXARI::znx_zero(carry);
+    }
+
     // Continues with shifted normalization
     for j in 0..size - steps {
         ZNXARI::znx_copy(tmp, res.at(res_col, size - steps - j - 1));
